@@ -192,7 +192,14 @@ int main(int argc, char **argv) {
 			int first = 1;
 			vh_begin("ids");
 			fputs(",\"ep\":[", vh_out);
-			for (i = 1; i < 200; i++) if (select_id(i)) { fprintf(vh_out, "%s%d", first ? "" : ",", i); first = 0; }
+			/* each id in a context of its own: what can be selected must not depend on what was selected before */
+			for (i = 1; i < 200; i++) {
+				int ok;
+				core_clean();
+				if (core_init() != RLC_OK) return 2;
+				ok = select_id(i);
+				if (ok) { fprintf(vh_out, "%s%d", first ? "" : ",", i); first = 0; }
+			}
 			fputs("]", vh_out);
 			vh_end();
 		} else if (strcmp(op, "ep") == 0) {
